@@ -110,7 +110,7 @@ fn c08_record_attempt_spacing() {
 
 /// Teardown / rejoin post-states: clean accounting.
 #[kani::proof]
-#[kani::unwind(5)]
+#[kani::unwind(6)]
 fn c08_reset_poststates() {
     let mut c = any_conn(1, SYM_FULL);
     let n: u8 = kani::any();
